@@ -1121,3 +1121,14 @@ Section ChecksumFromHeader.
     intros Hb A. unfold PkgAuth.checksum_from_header. rewrite A, hex_not_b64_form, (unhex_hex d Hb). reflexivity.
   Qed.
 End ChecksumFromHeader.
+
+(* the three copies of checksumFromHeader in the source (the one checkSums verifies with, the
+   streaming installer's, the lazy installer's) read the same record and the same prefix: the
+   model's single function stands for all of them *)
+Lemma checksum_sites_agree :
+  List.length checksum_sites = 3%nat /\
+  forall s k p, In (s, (k, p)) checksum_sites -> k = pax_checksum_key /\ p = checksum_b64_prefix.
+Proof.
+  split; [reflexivity|]. intros s k p H. unfold checksum_sites in H. simpl in H.
+  repeat (destruct H as [H|H]; [inversion H; subst; split; reflexivity|]). destruct H.
+Qed.
